@@ -238,6 +238,10 @@ def main(argv=None):
     if opts["replay"]:
         with open(opts["replay"]) as fh:
             witness = json.load(fh)
+        if witness.get("python_optimize") and not sys.flags.optimize:
+            # the witness was observed under python -O: replay it in the same interpreter mode
+            os.execve(sys.executable, [sys.executable, "-O", "-W", "ignore::SyntaxWarning", "-m", "vmon.cli"] + list(sys.argv[1:] if argv is None else argv),
+                      dict(os.environ, PYTHONOPTIMIZE="1"))
         ctx = Ctx(pid, witness.get("tier", tier), witness.get("seed", seed), witness.get("shard", 0), 1, None)
         mon = Monitor(pid, ctx)
         common.sk()
@@ -294,11 +298,24 @@ def main(argv=None):
         # a tree that does not import cannot satisfy any property; but that is a build failure, not ours
         return 2
 
+    procs = []
+    bc_shard = core_shard = None
+    tmpd = tempfile.mkdtemp(prefix=f"vmon-{pid}-")
+    # Interpreter-mode variant: the complete quick workload once more in a child started with PYTHONOPTIMIZE=1 (python -O:
+    # assert statements are compiled away, __debug__ is False), in both tiers, beside the main run.  The library must behave
+    # the same; whatever that child observes is merged into this run's monitors.
+    opt_shard = None
+    if os.environ.get("VERIF_OPT_SHARD", "1") == "1" and getattr(mod, "OPT_SHARD", True):
+        opt_shard = "opt"
+        out = os.path.join(tmpd, "shardopt.json")
+        env = dict(os.environ, VERIF_KEEP_ENV="1", PYTHONOPTIMIZE="1", VERIF_OPT_SHARD="0")
+        cmd = [sys.executable, "-X", "faulthandler", "-W", "ignore::SyntaxWarning", "-m", "vmon.cli", pid, "quick",
+               "--shard", "0/1", "--json-out", out, "--budget", str(module_budget(mod, "quick"))]
+        log = open(os.path.join(tmpd, "shardopt.log"), "w")
+        procs.append((opt_shard, out, log, subprocess.Popen(cmd, stdout=log, stderr=subprocess.STDOUT, env=env)))
     if nshards == 1:
         run_shard(mod, ctx, mon)
     else:
-        procs = []
-        tmpd = tempfile.mkdtemp(prefix=f"vmon-{pid}-")
         for s in range(nshards):
             out = os.path.join(tmpd, f"shard{s}.json")
             cmd = [sys.executable, "-X", "faulthandler", "-W", "ignore::SyntaxWarning", "-m", "vmon.cli", pid, tier,
@@ -308,7 +325,6 @@ def main(argv=None):
         # Numba's own bounds-check sanitizer: one extra shard re-runs the workload with NUMBA_BOUNDSCHECK=1 (separately
         # compiled, separate cache directory); an out-of-range index inside a kernel then raises IndexError instead of
         # silently reading or corrupting neighbouring memory, and surfaces as a violation of the property being driven.
-        bc_shard = None
         if tier == "thorough" and getattr(mod, "BOUNDSCHECK", False) and os.environ.get("VERIF_BOUNDSCHECK", "1") == "1":
             bc_shard = nshards
             out = os.path.join(tmpd, f"shard{bc_shard}.json")
@@ -322,7 +338,6 @@ def main(argv=None):
         # The core shard: the complete quick-tier workload (a fixed case list that is never cut short by the time budget) runs
         # beside the time-bounded shards, so the thorough verdict never rests on how far a loaded machine got: the coverage
         # floors are met by the core, the other shards add depth.
-        core_shard = None
         if tier == "thorough" and os.environ.get("VERIF_CORE_SHARD", "1") == "1":
             core_shard = "core"
             out = os.path.join(tmpd, "shard-core.json")
@@ -331,6 +346,7 @@ def main(argv=None):
                    "--shard", "0/1", "--json-out", out, "--budget", str(module_budget(mod, "quick"))]
             log = open(os.path.join(tmpd, "shardcore.log"), "w")
             procs.append((core_shard, out, log, subprocess.Popen(cmd, stdout=log, stderr=subprocess.STDOUT, env=env)))
+    if True:
         watchdog = budget * float(getattr(mod, "WATCHDOG_FACTOR", 4)) + 300
         for s, out, log, p in procs:
             left = max(5.0, t0 + watchdog - time.time())
@@ -352,6 +368,13 @@ def main(argv=None):
                 continue
             with open(out) as fh:
                 j = json.load(fh)
+            if s == opt_shard:
+                for w in j["violations"]:
+                    w["python_optimize"] = True
+                    if isinstance(w.get("detail"), dict):
+                        w["detail"]["interpreter"] = "python -O (PYTHONOPTIMIZE=1)"
+                mon.extra(python_O_shard_quick_workload={"cases": j["n_cases"], "invariant_evaluations": j["evaluations"],
+                                                         "violations": len(j["violations"]), "inconclusive": j.get("inconclusive", [])[:3]})
             if s == core_shard:
                 mon.extra(core_shard_quick_workload={"cases": j["n_cases"], "invariant_evaluations": j["evaluations"],
                                                      "violations": len(j["violations"]), "inconclusive": j.get("inconclusive", [])[:3]})
